@@ -35,7 +35,7 @@ def load_findings():
     return json.load(open(p, encoding='utf-8')).get('findings', [])
 
 
-def build(prop, tier, seed, workdir, refine=(), opaque=(), external=(), behavioural=()):
+def build(prop, tier, seed, workdir, refine=(), opaque=(), external=(), behavioural=(), drop=()):
     """generate the Verus file for a property; returns (info, obligations, gen_path)"""
     from . import cells
     cfg = PROPS[prop]
@@ -50,7 +50,7 @@ def build(prop, tier, seed, workdir, refine=(), opaque=(), external=(), behaviou
         t, o = lemmas.load(os.path.join(VERIF, 'lemmas', name + '.rs'), name.upper())
         texts.append(t)
     # first pass without generated cells to learn keycodes / layouts
-    pre = gen.generate(REPO, os.path.join(VERIF, 'contracts'), opaque=opaque, external=external, behavioural=behavioural)
+    pre = gen.generate(REPO, os.path.join(VERIF, 'contracts'), opaque=opaque, external=external, behavioural=behavioural, drop=drop)
     table_hints = None
     if pre.needs_table_hints:
         from . import native
@@ -88,7 +88,7 @@ def build(prop, tier, seed, workdir, refine=(), opaque=(), external=(), behaviou
         aux.update(a or {})
     os.makedirs(workdir, exist_ok=True)
     gen_path = os.path.join(workdir, 'gen.rs')
-    info = gen.generate(REPO, os.path.join(VERIF, 'contracts'), texts, out_path=gen_path, opaque=opaque, external=external, table_hints=table_hints, layout_hints=layout_hints, behavioural=behavioural, pred_hints=pred_hints)
+    info = gen.generate(REPO, os.path.join(VERIF, 'contracts'), texts, out_path=gen_path, opaque=opaque, external=external, table_hints=table_hints, layout_hints=layout_hints, behavioural=behavioural, pred_hints=pred_hints, drop=drop)
     info.aux = aux
     return info, obligations, gen_path
 
@@ -229,6 +229,29 @@ def offending_functions(tool, info):
     return keys
 
 
+def prunable(tool, info):
+    """contract clauses / ghost blocks that a compile error (not a verification failure) points into"""
+    out = set()
+    for f in tool:
+        if any(x in f.message for x in verus.SEMANTIC):
+            continue
+        for (a, b, p, l) in f.lines:
+            if not p:
+                continue
+            hit = None
+            for ln in range(a, b + 1):
+                if ln in info.ob_lines:
+                    hit = info.ob_lines[ln]
+                    break
+            if hit and info.obligations.get(hit, {}).get('kind') == 'clause':
+                out.add(hit)
+                continue
+            r = verus.enclosing(info.region_ranges, a)
+            if r and r[2] == 'ghost' and getattr(info, 'ghost_kinds', {}).get(r[3]) == 'impl':
+                out.add(r[3])
+    return out
+
+
 def const_item_at(info, line):
     """name of the const / static item of the crate whose initialiser contains generated line `line` (None if there is none)"""
     lines = info.text.split('\n')
@@ -334,14 +357,21 @@ def main(argv=None):
     try:
         external = set()
         behavioural = set()
-        for attempt in range(7):
-            info, lemma_obs, gen_path = build(prop, tier, seed, workdir, opaque=tuple(sorted(opaque)), external=tuple(sorted(external)), behavioural=tuple(sorted(behavioural)))
+        dropped = set()
+        for attempt in range(12):
+            info, lemma_obs, gen_path = build(prop, tier, seed, workdir, opaque=tuple(sorted(opaque)), external=tuple(sorted(external)), behavioural=tuple(sorted(behavioural)), drop=tuple(sorted(dropped)))
             R = relevant_obligations(prop, info, lemma_obs)
             res = verus.run(gen_path, info, seed=seed, multiple_errors=50)
             mine, tool, other = classify(prop, res.failures, R, info)
             opaque |= set(info.opaque)
             if not tool:
                 break
+            # contract text that does not even compile against the changed code (a ghost accessor reading a field that is
+            # gone, a clause calling such an accessor): prune exactly those pieces and decide the rest
+            prune = prunable(tool, info) - dropped
+            if prune:
+                dropped |= prune
+                continue
             off = offending_functions(tool, info)
             if not off - opaque - external - behavioural or all(f.oid is None and not f.lines for f in tool):
                 # no usable location (e.g. an internal error of the verifier): suspect the functions that are new or whose
@@ -367,7 +397,7 @@ def main(argv=None):
         coarse_failed = sorted(set(R[f.oid]['unit'] for f in mine if f.oid in R and R[f.oid]['kind'] == 'coarse' and f.kind == 'semantic'))
         refined = False
         if coarse_failed and tier != 'thorough' and not tool:
-            info, lemma_obs, gen_path = build(prop, tier, seed, workdir, refine=tuple(coarse_failed), opaque=tuple(sorted(opaque)), external=tuple(sorted(external)), behavioural=tuple(sorted(behavioural)))
+            info, lemma_obs, gen_path = build(prop, tier, seed, workdir, refine=tuple(coarse_failed), opaque=tuple(sorted(opaque)), external=tuple(sorted(external)), behavioural=tuple(sorted(behavioural)), drop=tuple(sorted(dropped)))
             R = relevant_obligations(prop, info, lemma_obs)
             res = verus.run(gen_path, info, seed=seed, multiple_errors=50)
             mine, tool, other = classify(prop, res.failures, R, info)
@@ -403,6 +433,9 @@ def main(argv=None):
             undecided_reasons.append('lost-anchor: ghost section(s) with no matching item: ' + ', '.join(info.lost_ghosts))
         if opaque_here:
             undecided_reasons.append('function(s) outside the verifier\'s dialect, left unverified: ' + ', '.join(opaque_here))
+        dropped_here = sorted(oid for oid, ps in getattr(info, 'dropped_clauses', []) if prop in ps or prop == 'C08')
+        if dropped_here:
+            undecided_reasons.append('contract clause(s) that no longer compile against the changed code (its state representation differs from the one the ghost view reads): ' + ', '.join(dropped_here[:8]))
         if tool or res.crashed:
             for f in tool[:3]:
                 undecided_reasons.append('tool: %s [%s]' % (f.message[:200], f.detail[:120]))
